@@ -3,6 +3,7 @@ package main
 // C15 — cosmetic engine returns exactly the applicable, non-excepted selectors.
 
 import (
+	"go/token"
 	"fmt"
 	"go/types"
 	"strings"
@@ -68,6 +69,53 @@ func runC15(c *Ctx) {
 			isWL = fn
 		case sig.Params().Len() == 1 && typeStr(sig.Params().At(0).Type()) == "*rules.CosmeticRule" && sig.Results().Len() == 0:
 			tblAdd = fn
+		}
+	}
+	// a role whose function is gone passes to the one helper outside the vocabulary with that
+	// signature among the functions the engine's query and the table's methods call
+	if find == nil || isWL == nil || tblAdd == nil {
+		var callers []*ssa.Function
+		if cm := c.P.Method("", "CosmeticEngine", "Match"); cm != nil {
+			callers = append(callers, cm)
+		}
+		if ca := c.P.Method("", "CosmeticEngine", "addRule"); ca != nil {
+			callers = append(callers, ca)
+		}
+		for i := 0; i < ms.Len(); i++ {
+			if fn := c.P.SSA.MethodValue(ms.At(i)); fn != nil && fn.Blocks != nil && !c.P.IsNewHelper(fn) {
+				callers = append(callers, fn)
+			}
+		}
+		adopt := func(fits func(sig *types.Signature) bool) *ssa.Function {
+			var got *ssa.Function
+			for _, cl := range callers {
+				if r := c.P.ResolveRole(cl, func(cal *ssa.Function) bool { return c.P.IsNewHelper(cal) && fits(cal.Signature) }); r != nil {
+					if got != nil && got != r {
+						return nil
+					}
+					got = r
+				}
+			}
+			return got
+		}
+		if find == nil {
+			find = adopt(func(sig *types.Signature) bool {
+				return sig.Params().Len() == 1 && typeStr(sig.Params().At(0).Type()) == "string" && sig.Results().Len() == 1 && typeStr(sig.Results().At(0).Type()) == "[]*rules.CosmeticRule"
+			})
+		}
+		if isWL == nil {
+			isWL = adopt(func(sig *types.Signature) bool {
+				if sig.Params().Len() != 2 || sig.Results().Len() != 1 || typeStr(sig.Results().At(0).Type()) != "bool" {
+					return false
+				}
+				t0, t1 := typeStr(sig.Params().At(0).Type()), typeStr(sig.Params().At(1).Type())
+				return (t0 == "string" && t1 == "*rules.CosmeticRule") || (t1 == "string" && t0 == "*rules.CosmeticRule")
+			})
+		}
+		if tblAdd == nil {
+			tblAdd = adopt(func(sig *types.Signature) bool {
+				return sig.Params().Len() == 1 && typeStr(sig.Params().At(0).Type()) == "*rules.CosmeticRule" && sig.Results().Len() == 0
+			})
 		}
 	}
 	if find == nil || isWL == nil || tblAdd == nil {
@@ -464,6 +512,25 @@ func runC15(c *Ctx) {
 			default:
 				if m.Op == "field" {
 					wlField = m.Aux
+				} else {
+					// the exceptions are handed to the test (its receiver or a parameter): the field they
+					// are kept in is what the callers pass
+					for pi, pe := range g.ParamExprs(isWL) {
+						if pe != m {
+							continue
+						}
+						for _, caller := range c.P.AllLibFuncs() {
+							for _, site := range callsTo(caller, isWL) {
+								if args := site.Common().Args; pi < len(args) {
+									if ld, isL := args[pi].(*ssa.UnOp); isL && ld.Op == token.MUL {
+										if _, fld, isF := fieldOf(ld.X); isF {
+											wlField = fld
+										}
+									}
+								}
+							}
+						}
+					}
 				}
 				extra, missed := sameAsExists(u, u.ToBool(res), ex)
 				if extra || missed {
